@@ -933,6 +933,35 @@ def run_replaced_column_then_named_again(chk, spec):
 			f"{spec!r}: table column now {cur!r}: {spec['op']} gives {short([list(c._underlying) for c in second.value.cols()] if second.ok else second, 200)}; a table built from the current cells gives {short([list(c._underlying) for c in ref.value.cols()] if ref.ok else ref, 200)}")
 
 
+def run_empty_table_renames(chk, spec):
+	"""tables and vectors WITHOUT rows still carry names: renaming a column of a table derived from a zero-row table (or built from empty vectors) leaves the source's - and the
+	caller's vectors' - names alone, and the other way round"""
+	import copy as _copy, warnings
+	with warnings.catch_warnings():
+		warnings.simplefilter("ignore")
+		v, w = Vector([], name="price"), Vector([], name="qty")
+		t = Table([v, w]) if spec["source"] == "from-empty-vectors" else (Table({"price": [1, 2], "qty": [3, 4]})[0:0] if spec["source"] == "emptied" else Table({"price": [], "qty": []}))
+		mk = {"copy": lambda: t.copy(), "copy.copy": lambda: _copy.copy(t), "stack-dict": lambda: t >> {"extra": []}, "stack-vector": lambda: t >> Vector([], name="extra"), "Table(cols)": lambda: Table(list(t.cols())), "select": lambda: t["price", "qty"],
+			"slice": lambda: t[0:0], "sort": lambda: t.sort_by("price"), "self": lambda: t}[spec["deriv"]]
+		d = call(mk)
+		if not d.ok or not isinstance(d.value, Table) or len(d.value.cols()) < 2:
+			chk.skip("derivation-not-available")
+			return
+		u = d.value
+		how = spec["how"]
+		target = u if spec["deriv"] != "self" else t
+		r = call({"rename_column": lambda: target.rename_column("price", "cost"), "rename_columns": lambda: target.rename_columns(["price", "qty"], ["cost", "n"]), "handle": lambda: setattr(target.cols()[0], "name", "cost")}[how])
+	chk.judged("pair", ("empty-table-renames", spec["source"], spec["deriv"], how))
+	if not r.ok:
+		chk.skip("rename-refused")
+		return
+	if spec["deriv"] != "self" and t.column_names()[:2] != ["price", "qty"]:
+		chk.fail("a write through one handle leaves every other object unchanged", f"frame/rename-reaches-other-table/zero-rows/{spec['deriv']}/{how}", f"{spec!r}: the source table's names are now {t.column_names()!r}")
+		return
+	if spec["source"] == "from-empty-vectors" and (v.name, w.name) != ("price", "qty"):
+		chk.fail("a write through one handle leaves every other object unchanged", f"frame/rename-reaches-input-vectors/zero-rows/{spec['deriv']}/{how}", f"{spec!r}: the vectors the table was built from are now named {(v.name, w.name)!r}")
+
+
 def run_history(chk, spec):
 	m = pool.Machine(chk, spec["seed"], spec["nsteps"], spec.get("profile", "mixed"))
 	try:
@@ -941,7 +970,7 @@ def run_history(chk, spec):
 		chk.counters["history_steps"] += len(m.trace)
 
 
-RUNNERS = {"caller_arguments": run_caller_arguments, "replaced_column_then_named_again": run_replaced_column_then_named_again, "derived_rename_accessors": run_derived_rename_accessors, "returned_container": run_returned_container, "unnamed_keys": run_unnamed_keys, "handle_survives": run_handle_survives, "pure_cells": run_pure_cells, "refusal": run_refusal, "pair": run_pair, "history": run_history, "recompute": recompute.runner("C01")}
+RUNNERS = {"empty_table_renames": run_empty_table_renames, "caller_arguments": run_caller_arguments, "replaced_column_then_named_again": run_replaced_column_then_named_again, "derived_rename_accessors": run_derived_rename_accessors, "returned_container": run_returned_container, "unnamed_keys": run_unnamed_keys, "handle_survives": run_handle_survives, "pure_cells": run_pure_cells, "refusal": run_refusal, "pair": run_pair, "history": run_history, "recompute": recompute.runner("C01")}
 
 def setup(chk):
 	pool.CENSUS.install()
@@ -967,6 +996,10 @@ def run(chk):
 			for side in ("derived", "source"):
 				for touch_first in (False, True):
 					chk.case("derived_rename_accessors", {"deriv": deriv, "how": how, "rename_side": side, "touch_first": touch_first}, "derived-rename-accessors")
+	for source in ("from-empty-vectors", "emptied", "empty-lists"):
+		for deriv in ("copy", "copy.copy", "stack-dict", "stack-vector", "Table(cols)", "select", "slice", "sort", "self"):
+			for how in ("rename_column", "rename_columns", "handle"):
+				chk.case("empty_table_renames", {"source": source, "deriv": deriv, "how": how}, "empty-table-renames")
 	for what in ("apply-dict", "over-list", "sum-list", "sort-keys", "sort-reverse", "join-left-keys", "join-right-keys", "rename-old", "rename-new", "index-list-negative", "index-list", "mask-list", "value-list", "row-index-list", "column-name-list", "row-values"):
 		chk.case("caller_arguments", {"what": what}, "caller-arguments")
 	for op in ("sort_by", "aggregate", "window", "join", "sort_by-list"):
